@@ -388,6 +388,43 @@ let c20_line line =
   | _ -> ()
 
 
+(* ---------------- bisync histories (C02 C06 C07) ---------------- *)
+let action_str = function
+  | PropAB -> "PropagateAtoB" | PropBA -> "PropagateBtoA" | Converge -> "ConvergeIdentical"
+  | DelA -> "DeleteA" | DelB -> "DeleteB" | ConfBoth -> "Conflict(BothChanged)" | ConfDelMod -> "Conflict(DeleteVsModify)"
+let hex12_of d = let h = hex_of_zl d in if String.length h >= 12 then String.sub h 0 12 else h
+let cbisync_line line =
+  match split_ws line with
+  | id :: fields ->
+    let tbl = ref [] and host = ref [] and a = ref [] and b = ref [] and ops = ref [] in
+    let tree v = if v = "-" then [] else List.map (fun e -> match String.split_on_char ':' e with
+        | [p; c] -> (zl_of_hex p, zl_of_hex c) | _ -> failwith "bad tree") (split_on ';' v) in
+    List.iter (fun f ->
+      let (k, v) = kv_of f in
+      if k = "T" then tbl := List.map (fun e -> match String.split_on_char ':' e with
+          | [c; d] -> (zl_of_hex c, zl_of_hex d) | _ -> failwith "bad T") (split_on ';' v)
+      else if k = "HOST" then host := zl_of_hex v
+      else if k = "A" then a := tree v else if k = "B" then b := tree v
+      else if k = "OPS" then ops := (if v = "-" then [] else List.map (fun o ->
+          match String.split_on_char ':' o with
+          | ["WA"; p; c] -> HWrite (SA, zl_of_hex p, zl_of_hex c)
+          | ["WB"; p; c] -> HWrite (SB, zl_of_hex p, zl_of_hex c)
+          | ["DA"; p] -> HDelete (SA, zl_of_hex p)
+          | ["DB"; p] -> HDelete (SB, zl_of_hex p)
+          | ["R"] -> HRun
+          | _ -> HFault) (split_on ',' v))) fields;
+    let states = bi_hist !tbl !host (bi_init !a !b) !ops in
+    let st (((ta, tb), z), r) =
+      Printf.sprintf "A=%s;B=%s;Z=%s;X=%s;P=%s" (tree_str ta) (tree_str tb)
+        (match z with None -> "none" | Some l ->
+           let l = List.sort compare (List.map (fun (p, d) -> (hex_of_zl p, hex12_of d)) l) in
+           if l = [] then "-" else String.concat "," (List.map (fun (p, d) -> p ^ "=" ^ d) l))
+        (match r with None -> "-" | Some (ExitOk, _) -> "OK" | Some (ExitConflicts, _) -> "CONFLICTS" | Some (ExitIoError, _) -> "IOERR")
+        (match r with None -> "-" | Some (_, pl) -> if pl = [] then "-" else
+           String.concat "," (List.map (fun (p, act) -> action_str act ^ ":" ^ hex_of_zl p) pl)) in
+    Printf.printf "%s %s\n" id (if states = [] then "-" else String.concat "|" (List.map st states))
+  | _ -> ()
+
 let () =
   match Array.to_list Sys.argv with
   | _ :: "c17" :: file :: _ -> iter_lines file (c17_line false)
@@ -399,6 +436,7 @@ let () =
   | _ :: "chub" :: file :: _ -> iter_lines file chub_line
   | _ :: "cwire" :: file :: _ -> iter_lines file cwire_line
   | _ :: "csync" :: file :: _ -> iter_lines file csync_line
+  | _ :: "cbisync" :: file :: _ -> iter_lines file cbisync_line
   | _ :: "crefuse" :: file :: _ -> iter_lines file (fun line -> match split_ws line with
       | id :: p :: _ -> Printf.printf "%s %s\n" id (if refused (zl_of_hex p) then "REFUSED" else "ACCEPTED")
       | _ -> ())
